@@ -256,7 +256,8 @@ def pc_conditional(df, by, on, group_weights=None):
         conditional_pcs = df.groupby(by).apply(lambda x: pc(x[on]))
         
     if group_weights is None:
-        group_weights = np.ones(len(df[by].value_counts()))
+        # one weight per group that has a value (a categorical `by` also lists categories without rows)
+        group_weights = np.ones(len(conditional_pcs))
     else:
         group_weights = np.asarray(group_weights)
     
